@@ -96,6 +96,23 @@ fn run_tuple(shape: &Shape, t: &[usize], with_faults: bool) -> Res {
     let windows = d.log.iter().filter(|o| matches!(o, DestOp::Write { data, .. } if data.len() == 12)).count() as u64;
     let mut fault_runs = 0;
     if with_faults {
+        // a destination that accepts at most 4096 / 50000 bytes per write (header + directory and every
+        // directory entry still go out in one piece): every crash point of the longer op log
+        for m in [4096usize, 50000] {
+            b.p.quiesce();
+            let (r3, d3) = dump_recorded(b.p.pid, &o, start, pre.clone(), Fault::ShortWrites(m));
+            fault_runs += 1;
+            if let DumpResult::Panic(p) = &r3 {
+                fails.push(("panic-on-short-writes".into(), format!("destination accepting at most {m} bytes per write: dump panicked: {p}")));
+            }
+            let mut f3 = Vec::new();
+            crash_points += check_log(&pre, start, &d3.log, &mut f3, &format!("destination accepting at most {m} bytes per write, crash point"));
+            for (k, msg) in f3 {
+                if !fails.iter().any(|f| f.0 == format!("short-writes/{k}")) {
+                    fails.push((format!("short-writes/{k}"), msg));
+                }
+            }
+        }
         for k in 0..d.calls {
             b.p.quiesce();
             let (r2, d2) = dump_recorded(b.p.pid, &o, start, pre.clone(), Fault::ErrAt(k));
